@@ -107,6 +107,60 @@ theorem read_is_member (s : Stk) (d : Nat) (p : Pop) (h : tryPeek s d = some p) 
   have := List.mem_of_getElem? h
   simpa [abs] using this
 
+/-- Operations that neither add nor remove populations nor touch their contents. -/
+def readOnly : Op → Bool
+  | .cur | .getCur | .peek _ | .tryPeek _ | .rot _ | .cRot _ | .len | .empty => true
+  | _ => false
+
+/-- One reading / rotating operation leaves the stack a permutation of what it was: the same populations,
+each with the same individuals in the same order. -/
+theorem readonly_op_perm (s : Stk) (op : Op) (h : readOnly op = true) : (step s op).1.Perm s := by
+  cases op <;> simp [readOnly] at h
+  case cur => simp only [step]; cases s.getLast? <;> exact List.Perm.refl _
+  case getCur => simp only [step]; cases s.getLast? <;> exact List.Perm.refl _
+  case peek d => simp only [step]; cases tryPeek s d <;> exact List.Perm.refl _
+  case tryPeek d => simp only [step]; cases tryPeek s d <;> exact List.Perm.refl _
+  case len => exact List.Perm.refl _
+  case empty => exact List.Perm.refl _
+  case rot n =>
+    simp only [step]
+    cases hr : rotate s n with
+    | none => exact List.Perm.refl _
+    | some s' => exact rotate_perm s s' n hr
+  case cRot n =>
+    simp only [step]
+    split
+    · exact List.Perm.refl _
+    · cases hr : rotate s n with
+      | none => exact List.Perm.refl _
+      | some s' => exact rotate_perm s s' n hr
+
+/-- … and so does every finite history of them: stack operations never touch the individuals. -/
+theorem stack_ops_preserve_individuals (s : Stk) (ops : List Op) (h : ∀ op ∈ ops, readOnly op = true) :
+    (run s ops).1.Perm s := by
+  induction ops generalizing s with
+  | nil => exact List.Perm.refl _
+  | cons op ops ih =>
+    simp only [run]
+    have h1 := readonly_op_perm s op (h op (by simp))
+    have h2 := ih (step s op).1 (fun o ho => h o (by simp [ho]))
+    exact h2.trans h1
+
+/-- `pop` removes exactly the top population and returns it unchanged; `push` then restores the stack. -/
+theorem pop_returns_top (s s' : Stk) (p : Pop) (h : step s .pop = (s', .pop p)) : s = s' ++ [p] := by
+  rcases List.eq_nil_or_concat s with hs | ⟨r, q, hs⟩
+  · subst hs; simp [step, vecPop] at h
+  · subst hs
+    simp only [List.concat_eq_append, step, vecPop_concat] at h
+    obtain ⟨h1, h2⟩ := Prod.mk.inj h
+    injection h2 with h2
+    subst h1; subst h2; simp
+
+/-- None of the `n` rotations of `rotate_n_times_id` panics. -/
+theorem rotate_within_height_ok (s : Stk) (n : Nat) (h : n ≤ s.length) : (step s (.rot n)).2 = .ok := by
+  obtain ⟨s', h1, _⟩ := rotate_eq s n h
+  simp [step, h1]
+
 /-- `RotatePopulations` reports an insufficient height as `Err` and never panics. -/
 theorem rotate_component_guard (s : Stk) (n : Nat) :
     ((step s (.cRot n)).2 = .err ↔ s.length < n) ∧ (step s (.cRot n)).2 ≠ .panic := by
@@ -149,6 +203,7 @@ theorem split_panics_iff (p : Pop) : splitPop p = none ↔ p.length < 2 := by
 
 /-! Non-vacuity: the hypotheses are met by a concrete non-trivial stack. -/
 example : (3 : Nat) ≤ ([[1], [2, 3], [4], [5]] : Stk).length := by decide
+example : ∀ op ∈ [Op.rot 2, .peek 1, .cRot 3, .len], readOnly op = true := by decide
 example : iter (fun x => (step x (.rot 3)).1) 3 [[1], [2, 3], [4], [5]] = [[1], [2, 3], [4], [5]] := by decide
 example : (step [[1], [2, 3], [4], [5]] (.rot 3)).1 = [[1], [5], [2, 3], [4]] := by decide
 example : (splitPop [5, 1, 4, 2, 3]).isSome = true := by simp [splitPop]
